@@ -174,7 +174,11 @@ def gen_case(rng, force_circular=None) -> dict:
         else:
             extent = [[max(0, start - padl), min(length, end + padr)]]
         subs.append({"label": f"sub{j}", "extent": extent, "sideloaded": rng.random() < 0.4})
-    return {"L": length, "circular": circular, "genes": genes, "protoclusters": protos, "subregions": subs}
+    late_genes = []
+    if rng.random() < 0.3:
+        late_genes = [g["name"] for g in genes if not g["core"] and rng.random() < 0.4]
+    return {"L": length, "circular": circular, "genes": genes, "protoclusters": protos, "subregions": subs,
+            "late_genes": late_genes}
 
 
 def _location(ivs, strand=1):
@@ -210,12 +214,18 @@ def build(case: dict):
     record = W.make_record(case["L"], case["circular"])
     record.record_index = 1
     record.id = "verif_rec"
+    # genes that only arrive once the regions exist (as the RiPP modules add the precursors they find): they carry no
+    # defining function, so that the areas formed are those of the genes-first build
+    late = [g for g in case["genes"] if g["name"] in case.get("late_genes", []) and not g["core"]]
     for g in case["genes"]:
-        record.add_cds_feature(W.make_cds(g["name"], g["loc"], g["core"]))
+        if g not in late:
+            record.add_cds_feature(W.make_cds(g["name"], g["loc"], g["core"]))
     for p in case["protoclusters"]:
         record.add_protocluster(make_protocluster(p, case["L"], case["circular"]))
     for s in case["subregions"]:
         record.add_subregion(make_subregion(s, case["L"], case["circular"]))
     record.create_candidate_clusters()
     record.create_regions()
+    for g in late:
+        record.add_cds_feature(W.make_cds(g["name"], g["loc"], g["core"]))
     return record
